@@ -320,6 +320,19 @@ func init() {
 		e.store(fr, st, fp, ft, &Sc{e.ptrTerm(args[1])}, "atomic pointer store")
 		return nil
 	}
+	intrinsics["sync/atomic.Pointer.Swap"] = func(e *Engine, fr *Frame, st *State, fn *ssa.Function, args []SV, resT types.Type, pos token.Pos) SV {
+		atomicNote(e)
+		fp, ft := atomicField(e, st, args[0], pos)
+		var old SV
+		if e.isVolatile(fp) {
+			old = e.freshSV(resT, "vol", st.pc, st)
+		} else {
+			v := e.load(fr, st, fp, ft, "atomic pointer swap")
+			old = e.unflat(resT, e.flatten(ft, v))
+		}
+		e.store(fr, st, fp, ft, &Sc{e.ptrTerm(args[1])}, "atomic pointer swap")
+		return old
+	}
 	// Iteration with a callback (segmentTree.Ascend, sync.Map.Range): the callback
 	// runs an unknown number of times on unknown elements. Sound abstraction: every
 	// location the callback can write is havocked (fields of its parameters: whole
